@@ -191,12 +191,28 @@ IDrop ==
   /\ obs' = [a |-> "IDrop", st |-> Proj]
 
 \* ------------------------------------------------------------------- stats
+\* "swap" (intended): an epoch ends in ONE atomic step that reports and zeroes both epoch counters.
+\* "loadstore" (as found): Reset() is atomic.Store(dropped, 0) then atomic.Store(zmqMessages, 0); PrintAndReset loads the
+\* counters one by one while formatting its line, calls the logger and only then calls Reset().
+Swap == StatsMode = "swap"
+
+\* ZMQIngester.Reset called directly
 Reset ==
   /\ spc = "idle" /\ epochs < MaxEpochs
-  /\ gone' = [zmq |-> gone.zmq + zmq, drp |-> gone.drp + drp]
-  /\ zmq' = 0 /\ drp' = 0 /\ epochs' = epochs + 1
-  /\ UNCHANGED <<lvars, pvars, ivars, tot, spc, snap, rcv, recvd, fwd, dropAll, disc, rep>>
+  /\ epochs' = epochs + 1
+  /\ drp' = 0
+  /\ IF Swap THEN /\ zmq' = 0 /\ spc' = "idle"
+                  /\ gone' = [zmq |-> gone.zmq + zmq, drp |-> gone.drp + drp]
+             ELSE /\ zmq' = zmq /\ spc' = "r"
+                  /\ gone' = [gone EXCEPT !.drp = @ + drp]
+  /\ UNCHANGED <<lvars, pvars, ivars, tot, snap, rcv, recvd, fwd, dropAll, disc, rep>>
   /\ obs' = [a |-> "Reset", st |-> Proj]
+
+ResetZ ==
+  /\ spc = "r" /\ spc' = "idle"
+  /\ zmq' = 0 /\ gone' = [gone EXCEPT !.zmq = @ + zmq]
+  /\ UNCHANGED <<lvars, pvars, ivars, drp, tot, snap, epochs, rcv, recvd, fwd, dropAll, disc, rep>>
+  /\ obs' = [a |-> "ResetZ", st |-> Proj]
 
 \* PrintAndReset called: l := len(zi.regChan)
 PLen ==
@@ -208,16 +224,15 @@ PLen ==
 
 PLoadZ ==
   /\ spc = "l" /\ spc' = "z"
-  /\ snap' = [snap EXCEPT !.zmq = zmq]
-  /\ zmq' = IF StatsMode = "swap" THEN 0 ELSE zmq
-  /\ UNCHANGED <<lvars, pvars, ivars, drp, tot, epochs, gvars>>
+  /\ IF Swap THEN snap' = [snap EXCEPT !.zmq = zmq, !.drp = drp] /\ zmq' = 0 /\ drp' = 0
+             ELSE snap' = [snap EXCEPT !.zmq = zmq] /\ UNCHANGED <<zmq, drp>>
+  /\ UNCHANGED <<lvars, pvars, ivars, tot, epochs, gvars>>
   /\ obs' = [a |-> "PLoadZ", st |-> Proj]
 
 PLoadD ==
   /\ spc = "z" /\ spc' = "d"
-  /\ snap' = [snap EXCEPT !.drp = drp]
-  /\ drp' = IF StatsMode = "swap" THEN 0 ELSE drp
-  /\ UNCHANGED <<lvars, pvars, ivars, zmq, tot, epochs, gvars>>
+  /\ snap' = IF Swap THEN snap ELSE [snap EXCEPT !.drp = drp]
+  /\ UNCHANGED <<lvars, pvars, ivars, cvars, epochs, gvars>>
   /\ obs' = [a |-> "PLoadD", st |-> Proj]
 
 PLoadT ==
@@ -233,18 +248,38 @@ PPrint ==
   /\ UNCHANGED <<lvars, pvars, ivars, cvars, snap, epochs, rcv, recvd, fwd, dropAll, disc, gone>>
   /\ obs' = [a |-> "PPrint", zmq |-> snap.zmq, drp |-> snap.drp, tot |-> snap.tot, len |-> snap.len, st |-> Proj]
 
+\* the logger returned; Reset(): first store
 PStore ==
-  /\ spc = "p" /\ spc' = "idle"
-  /\ zmq' = IF StatsMode = "loadstore" THEN 0 ELSE zmq
-  /\ drp' = IF StatsMode = "loadstore" THEN 0 ELSE drp
+  /\ spc = "p"
+  /\ IF Swap THEN spc' = "idle" /\ UNCHANGED <<zmq, drp>>
+             ELSE spc' = "s" /\ drp' = 0 /\ UNCHANGED zmq
   /\ UNCHANGED <<lvars, pvars, ivars, tot, snap, epochs, gvars>>
   /\ obs' = [a |-> "PStore", st |-> Proj]
+
+PStoreZ ==
+  /\ spc = "s" /\ spc' = "idle"
+  /\ zmq' = 0
+  /\ UNCHANGED <<lvars, pvars, ivars, drp, tot, snap, epochs, gvars>>
+  /\ obs' = [a |-> "PStoreZ", st |-> Proj]
 
 \* ------------------------------------------------------------------ system
 \* steps the code takes by itself (no driver involvement)
 Auto == \/ \E u \in Ups : SubRecv(u) \/ ProxyTake(u)
         \/ ProxySend \/ ProxyStop \/ IRecv \/ ISelect
-        \/ PLoadZ \/ PLoadD \/ PLoadT \/ PPrint
+        \/ ResetZ \/ PLoadZ \/ PLoadD \/ PLoadT \/ PPrint \/ PStoreZ
+
+\* the same without the one step of the code a recording driver always sees (the stats line)
+AutoSilent == \/ \E u \in Ups : SubRecv(u) \/ ProxyTake(u)
+              \/ ProxySend \/ ProxyStop \/ IRecv \/ ISelect
+              \/ ResetZ \/ PLoadZ \/ PLoadD \/ PLoadT \/ PStoreZ
+
+AutoEn == \/ /\ prox = "running"
+             /\ \/ \E u \in Ups : (hand[u] = None /\ inq[u] # <<>>) \/ (mcur = None /\ hand[u] # None)
+                \/ mcur # None
+                \/ (ShutdownMode = "observed" /\ cancelled)
+          \/ (ipc = "recv" /\ (outq # <<>> \/ (ShutdownMode = "observed" /\ cancelled)))
+          \/ ipc = "select"
+          \/ spc \in {"r", "l", "z", "d", "t", "s"}
 \* steps a driver decides: the environment, and the two places where the real code calls out into a logger the
 \* driver owns (Warnln before the drop is counted; the stats line before Reset())
 Env == \/ Start \/ Cancel \/ Consume \/ \E u \in Ups : Publish(u)
@@ -261,7 +296,7 @@ TypeOK ==
   /\ started \in BOOLEAN /\ cancelled \in BOOLEAN /\ dl \in BOOLEAN
   /\ prox \in {"none", "running", "stopped"}
   /\ ipc \in {"none", "recv", "select", "warn", "returned"}
-  /\ spc \in {"idle", "l", "z", "d", "t", "p"}
+  /\ spc \in {"idle", "r", "l", "z", "d", "t", "p", "s"}
   /\ \A u \in Ups : sent[u] \in 0..MaxSend /\ base[u] <= sent[u] /\ Len(inq[u]) <= MaxSend
   /\ Len(chanq) <= ChanCap
   /\ (cur = None) = (ipc \notin {"select", "warn"})
@@ -297,10 +332,11 @@ Accounted == /\ recvd = fwd + dropAll + disc + (IF cur # None THEN 1 ELSE 0)
              /\ tot = dropAll
 \* the decision to drop is taken only when regChan is full (the count follows after the log line)
 DropOnlyWhenFull == [][(ipc' = "warn" /\ ipc # "warn") => Len(chanq) = ChanCap]_vars
-\* within an epoch the counters are consistent up to the one message RunZMQ holds across a Reset
-EpochBalance == spc = "idle" => drp <= zmq + 1
+\* within an epoch the counters are consistent up to the one message RunZMQ holds across the epoch switch
+\* (INTENDED; as found the two counters are zeroed by two separate stores and any number of messages fits in between)
+EpochBalance == drp <= zmq + 1
 \* no received / dropped message escapes the epoch reports (INTENDED; the as-found load...store loses increments)
-NoLostCount == (spc \in {"idle", "p"} /\ (StatsMode = "swap" \/ spc = "idle")) =>
+NoLostCount == (spc = "idle" \/ (Swap /\ spc = "p")) =>
                  /\ rep.zmq + gone.zmq + zmq = recvd
                  /\ rep.drp + gone.drp + drp = dropAll
 \* the printed received count never exceeds what was received and not yet reported
